@@ -69,6 +69,6 @@ example : [fate true 100 1000 ⟨1, .running, 880, []⟩, fate true 100 1000 ⟨
 set_option maxRecDepth 100000 in
 /-- the code this property's model mirrors still has the shape the model was written against (control-flow
     skeletons regenerated from /repo on every run, Model/SkeletonsMore) -/
-theorem facts_model_skeleton : Generated.F12.startup = SkeletonsMore.startup := by decide +kernel
+theorem facts_model_skeleton : Generated.F12.startup = SkeletonsMore.startup := by rfl
 
 end Coercion.C11
